@@ -392,15 +392,25 @@ type scriptReader struct {
 	comb      bool
 	delivered int
 	yield     bool
+	// in-flight observation: block before the holdCall-th Read (-1: never)
+	holdCall int
+	calls    int
+	reached  chan struct{}
+	release  chan struct{}
 }
 
 func newReader(p Push) *scriptReader {
 	evs := make([]Ev, len(p.Script))
 	copy(evs, p.Script)
-	return &scriptReader{evs: evs, comb: p.Comb}
+	return &scriptReader{evs: evs, comb: p.Comb, holdCall: -1}
 }
 
 func (r *scriptReader) Read(p []byte) (int, error) {
+	if r.reached != nil && r.calls == r.holdCall {
+		close(r.reached)
+		<-r.release
+	}
+	r.calls++
 	if r.yield {
 		runtime.Gosched()
 	}
@@ -887,7 +897,57 @@ func runST(id string, c *Case) string {
 		lBefore := joinListing(e.listing())
 		var err, ferr error
 		var fb []byte
-		if pv := guard(func() { err = e.st.Push(ctx, d, newReader(p)) }); pv != nil {
+		// in-flight observation (oracle only, deterministic): the push is stopped before one of
+		// its first Reads; what the store shows for this descriptor must be what it showed before
+		rd := newReader(p)
+		if hold := (len(p.Script) + int(p.SZ&3) + i) % 4; hold < 3 {
+			rd.holdCall, rd.reached, rd.release = hold, make(chan struct{}), make(chan struct{})
+		}
+		qd := d // file store: a query under the name being pushed waits for the push; ask by digest
+		if strings.HasPrefix(c.Kind, "file") && p.Name != "" {
+			qd = ocispec.Descriptor{MediaType: d.MediaType, Digest: d.Digest, Size: d.Size}
+		}
+		_, qxBefore := existsStr(e.st, qd)
+		qrawBefore, qerrBefore := rawFetch(e.st, qd)
+		pushDone := make(chan any, 1)
+		go func() { pushDone <- guard(func() { err = e.st.Push(ctx, d, rd) }) }()
+		var pv any
+		finished := false
+		if rd.reached != nil {
+			select {
+			case <-rd.reached:
+				tagf := fmt.Sprintf("push %d/%d on %s, stopped before Read #%d: ", i+1, len(c.Pushes), c.Kind, rd.holdCall)
+				_, qx := existsStr(e.st, qd)
+				qraw, qerr := rawFetch(e.st, qd)
+				if qx != qxBefore {
+					vf("inflight-visible", tagf+fmt.Sprintf("Exists changed from %v to %v while the content is still being read", qxBefore, qx))
+				}
+				if (qerr == nil) != (qerrBefore == nil) || (qerr == nil && !bytes.Equal(qraw, qrawBefore)) {
+					vf("inflight-fetchable", tagf+fmt.Sprintf("Fetch changed while the content is still being read (%d bytes, err=%v)", len(qraw), qerr))
+				}
+				if !strings.HasPrefix(c.Kind, "file") { // (the working directory legitimately holds the partial file)
+					if l := joinListing(e.listing()); l != lBefore {
+						fail(id, "inflight-stored", tagf+"the stored blobs changed while the content is still being read: "+lBefore+" -> "+l, c)
+					}
+				}
+				run.Count("judged:inflight")
+				close(rd.release)
+			case pv = <-pushDone:
+				finished = true
+			case <-time.After(20 * time.Second):
+				fail(id, "push-wedged", fmt.Sprintf("push %d on %s neither read nor returned within 20s", i+1, c.Kind), c)
+				return "WEDGED"
+			}
+		}
+		if !finished {
+			select {
+			case pv = <-pushDone:
+			case <-time.After(20 * time.Second):
+				fail(id, "push-wedged", fmt.Sprintf("push %d on %s did not return within 20s", i+1, c.Kind), c)
+				return "WEDGED"
+			}
+		}
+		if pv != nil {
 			fail(id, "size-panic", fmt.Sprintf("push %d on %s panicked for Size %d: %v", i+1, c.Kind, p.SZ, pv), c)
 			return "PANIC"
 		}
@@ -1953,7 +2013,7 @@ func main() {
 		"store:mem", "store:lim", "store:oci", "store:olim", "store:file", "store:ocistore", "store:memstore",
 		"store:fileD", "store:fileC", "store:fileI", "store:fileF",
 		"input:good", "input:good+trailing", "input:bad-digest", "input:digest-mismatch", "input:negative-size", "input:short-or-failed",
-		"cw:fail:fault", "cw:short:fault", "judged:cc-membership", "gen:alias-name", "gen:huge-size", "gen:blob>1MiB", "gen:exhaustive-history"} {
+		"cw:fail:fault", "cw:short:fault", "judged:cc-membership", "gen:alias-name", "gen:huge-size", "gen:blob>1MiB", "gen:exhaustive-history", "judged:inflight"} {
 		if run.Dist[k] == 0 {
 			missing = append(missing, k)
 		}
